@@ -39,7 +39,7 @@ pub struct Case {
     pub argv: Vec<Arg>,
     /// raw environment entries (with or without '=')
     pub envp: Vec<BStr>,
-    /// lookup keys: non-empty, no '=', no NUL
+    /// lookup keys: non-empty; no '=' and no NUL, except the keys made to span two entries (entry, NUL, next name)
     pub keys: Vec<BStr>,
     /// indices into MODES
     pub builds: Vec<u8>,
@@ -140,13 +140,30 @@ struct KeySpec {
 }
 
 fn key_spec() -> impl Strategy<Value = KeySpec> {
-    (any::<bool>(), any::<u16>(), 0u8..12, any::<u16>(), prop::collection::vec(prop::sample::select(b"ABDIR_1x \xff\xa9".to_vec()), 1..=3))
+    (any::<bool>(), any::<u16>(), 0u8..13, any::<u16>(), prop::collection::vec(prop::sample::select(b"ABDIR_1x \xff\xa9".to_vec()), 1..=3))
         .prop_map(|(from_env, pick, kind, cut, ext)| KeySpec { from_env, pick, kind, cut, ext })
 }
 
 const ABSENT: [&[u8]; 4] = [b"ZZ", b"Q", b"absent", b"\xfe"];
 
 fn resolve_key(spec: &KeySpec, envp: &[Vec<u8>]) -> Vec<u8> {
+    // kind 12: a key that spans two entries as they lie in memory - a whole entry, its terminator, the name of
+    // the entry behind it (the strings of the environment block are laid out back to back, in order). No name
+    // can equal a key with a NUL inside: the lookup must report it missing.
+    if spec.kind == 12 && envp.len() >= 2 {
+        let i = pick_idx(spec.pick, envp.len() - 1);
+        let next = &envp[i + 1];
+        let next_name = match next.iter().position(|&c| c == b'=') {
+            Some(p) => &next[..p],
+            None => &next[..],
+        };
+        if !envp[i].is_empty() && !next_name.is_empty() {
+            let mut k = envp[i].clone();
+            k.push(0);
+            k.extend_from_slice(next_name);
+            return k;
+        }
+    }
     // base name: from the pool, or the name (bytes before the first '=', or the whole entry) of an entry of this case
     let base: Vec<u8> = if spec.from_env && !envp.is_empty() {
         let e = &envp[pick_idx(spec.pick, envp.len())];
@@ -234,7 +251,7 @@ pub fn lookup_case(thorough: bool) -> impl Strategy<Value = Case> {
     (envp, prop::collection::vec(key_spec(), 1..=3), builds(thorough, 1)).prop_map(|(envp, mut specs, builds)| {
         for s in specs.iter_mut() {
             s.from_env = true;
-            if s.kind >= 10 {
+            if s.kind >= 10 && s.kind != 12 {
                 s.kind = 5; // absent names are the other sub-check's business: extend instead
             }
         }
